@@ -1,5 +1,6 @@
 import __future__
 import ast
+import builtins
 import inspect
 import linecache
 import textwrap
@@ -209,10 +210,12 @@ def generate_dependent_dispatch(tup, handlers, next_call, slf, name, err, nerr):
         return name
 
     def argname(x):
-        return local(f"ARG{x}") if isinstance(x, int) else x
+        return local(f"ARG{x}") if isinstance(x, int) else safe.get(x, x)
 
     def argprovide(x):
-        return local(f"ARG{x}") if isinstance(x, int) else f"{x}={x}"
+        if isinstance(x, int):
+            return local(f"ARG{x}")
+        return f"{x}={safe.get(x, x)}"
 
     def codegen(typ, arg):
         cg = generate_checking_code(typ)
@@ -226,6 +229,19 @@ def generate_dependent_dispatch(tup, handlers, next_call, slf, name, err, nerr):
     ndb = NameDatabase(default_name="INJECT")
     for k in reserved:
         ndb.register(k)
+    # A keyword parameter called like a builtin (len, bool, ...) would hide
+    # it from the checking code: its value moves to a name of its own and
+    # the builtin gets its name back
+    safe = {
+        k: local(f"KW_{k}")
+        for k in sorted(reserved)
+        if hasattr(builtins, k)
+    }
+    prologue = []
+    for k, alias in safe.items():
+        ndb.register(alias)
+        prologue.append(f"{alias} = {k}")
+        prologue.append(f"{k} = {ndb[getattr(builtins, k)]}")
     for i in range(max(len(tup), len(handlers))):
         for base in ("ARG", "HANDLER", "MATCH"):
             ndb.register(local(f"{base}{i}"))
@@ -278,10 +294,12 @@ def generate_dependent_dispatch(tup, handlers, next_call, slf, name, err, nerr):
     if len(handlers) == 1:
         exclusive = True
 
-    argspec = ", ".join(argname(x) for x in tup)
+    argspec = ", ".join(
+        argname(x) if isinstance(x, int) else x for x in tup
+    )
     argcall = ", ".join(argprovide(x) for x in tup)
 
-    body = []
+    body = list(prologue)
     if keyexpr:
         body.append("try:")
         body.append(f"    {local('HANDLER')} = {ndb[keyed]}.get({keyexpr}, {local('FALLTHROUGH')})")
